@@ -442,7 +442,7 @@ func init() {
 		ID: "C13", Level: "model_checking",
 		Rule:      "(search) databases = 40-entry, 12-identical + all subsets of <=2 (quick) / <=3 (thorough) of 13 pool entries; queries = 22 one-word + 56 two-word + three 11-12-word queries (each also with TopTermsCap 5 and 6, so that the term trimming is in play) + empty; boost maps = 15 words x factors {1,1.3,2,3}, all 105 two-word maps with factors {2,3}, a zero, a negative and an empty map; NLP off/on; each as a pair (without, with boosts) at Limit>=N: same candidate set, boosted-word entries never lower, other entries bit-identical. (analyzer) every listing of <=2 names from 51 marker / non-marker names + every listing of 3 names two of which are markers of the same project type (thorough: + all subsets of >=3 of 18 representative markers) x 8 package.json x 8 Makefile texts on a real tmpfs directory: determinism, no duplicate type, generic exactly when nothing recognised, no recognised type missed, finite boosts >=1, GetContextBoosts invariant under forced map orders. non-trivial = pairs whose scores differ / non-generic directories",
 		Assume:    []string{"map order pinned in searches; explored (deviation bound 1, reverse and rotate) in GetContextBoosts", "marker table copied from the analyzer's documented file names"},
-		QuickSecs: 150, ThorSecs: 1500,
+		QuickSecs: 240, ThorSecs: 1800,
 		Run: c13Run,
 		Replay: func(c *lib.Ctx, raw json.RawMessage) []lib.Violation {
 			vhost.Set("linux")
